@@ -48,6 +48,11 @@ func newChunkStream(chunks [][]byte, finalEOF bool) *chunkStream {
 
 // measuredPanic is `measured` keeping the panic value
 func measuredPanic(f func()) (pv interface{}, alloc uint64, returned bool) {
+	return measuredPanicWithin(60*time.Second, f)
+}
+
+// measuredPanicWithin: the same with another liveness bound
+func measuredPanicWithin(limit time.Duration, f func()) (pv interface{}, alloc uint64, returned bool) {
 	if tooManyHangs() {
 		return nil, 0, false
 	}
@@ -67,7 +72,7 @@ func measuredPanic(f func()) (pv interface{}, alloc uint64, returned bool) {
 		runtime.ReadMemStats(&ms1)
 		done <- outc{p, ms1.TotalAlloc - ms0.TotalAlloc}
 	}()
-	t := time.NewTimer(60 * time.Second)
+	t := time.NewTimer(limit)
 	defer t.Stop()
 	select {
 	case o := <-done:
